@@ -3,7 +3,7 @@ import types
 import numpy as np
 import z3
 from pvc.runner import Job
-from pvc import core, shims, diff
+from pvc import frame, core, shims, diff
 from pvc.shims import Forward
 import cuqi
 from cuqi.distribution import Gaussian, Cauchy
@@ -46,7 +46,11 @@ def _problem(c, m, n, noise_form, prior_form, noise_param='cov', prior_param='co
 def map_closed_form(c, m, n, noise_form, prior_form, noise_param='cov', prior_param='cov', geom='default'):
     BP, n = _problem(c, m, n, noise_form, prior_form, noise_param, prior_param, geom)
     post = BP.posterior
+    S0 = (frame.snapshot(BP.likelihood.distribution), frame.snapshot(BP.prior))
     xmap = BP.MAP(disp=False)              # a refusal (exception) is an admissible outcome
+    S1 = (frame.snapshot(BP.likelihood.distribution), frame.snapshot(BP.prior))
+    c.holds('computing_the_estimate_leaves_noise_model_and_prior_unchanged', frame.same(S0, S1), note='; '.join(frame.diff(S0, S1)))
+    c.eq('a_second_call_returns_the_same_estimate', np.asarray(BP.MAP(disp=False)), np.asarray(xmap))
     c.holds('map_has_parameter_shape', np.shape(xmap) == (n,), note=str(np.shape(xmap)))
     c.holds('map_carries_posterior_geometry', xmap.geometry == post.geometry)
     g = c.grad_at(lambda v: post.logd(v), np.asarray(xmap))
@@ -77,7 +81,10 @@ def direct_sampling(c, m, n, noise_form, prior_form):
     for s in range(2):
         if c.sym: shims.PRESET['normal'].append(e[s])
         else: c._numq['normal'].append(e[s]); c._patch_random()
+    S0 = (frame.snapshot(BP.likelihood.distribution), frame.snapshot(BP.prior))
     S = BP._sampleMapCholesky(2)
+    S1 = (frame.snapshot(BP.likelihood.distribution), frame.snapshot(BP.prior))
+    c.holds('sampling_leaves_noise_model_and_prior_unchanged', frame.same(S0, S1), note='; '.join(frame.diff(S0, S1)))
     xmap = np.asarray(BP.MAP(disp=False))
     H = -c.hessian_of(lambda v: post.logd(v), n)
     if c.sym:
@@ -151,15 +158,16 @@ def jobs(tier):
     cfgs = [(2, 2, 'scalar', 'scalar', 'cov', 'cov', 'default'), (1, 2, 'scalar', 'vector', 'cov', 'cov', 'default'), (2, 1, 'vector', 'scalar', 'cov', 'cov', 'default'),
             (2, 2, 'vector', 'vector', 'cov', 'cov', 'default'), (2, 2, 'scalar', 'scalar', 'cov', 'cov', 'Continuous1D'),
             (2, 2, 'scalar', 'scalar', 'cov', 'cov', 'Step'),
-            (2, 2, 'vector', 'vector', 'prec', 'cov', 'default'), (2, 2, 'vector', 'vector', 'cov', 'sqrtprec', 'default'), (2, 2, 'scalar', 'scalar', 'sqrtcov', 'prec', 'default')]
-    if not q: cfgs += [(1, 1, 'scalar', 'scalar', 'cov', 'cov', 'default'), (2, 2, 'dense', 'dense', 'cov', 'cov', 'default'), (2, 2, 'dense', 'vector', 'cov', 'cov', 'default'), (2, 2, 'vector', 'dense', 'cov', 'cov', 'default')]
+            (2, 2, 'vector', 'vector', 'prec', 'cov', 'default'), (2, 2, 'vector', 'vector', 'cov', 'sqrtprec', 'default'), (2, 2, 'scalar', 'scalar', 'sqrtcov', 'prec', 'default'),
+            (2, 2, 'dense', 'vector', 'cov', 'cov', 'default')]        # correlated noise: the covariance is a stored matrix, not a temporary
+    if not q: cfgs += [(1, 1, 'scalar', 'scalar', 'cov', 'cov', 'default'), (2, 2, 'dense', 'dense', 'cov', 'cov', 'default'), (2, 2, 'vector', 'dense', 'cov', 'cov', 'default')]
     for (m, n, nf, pf, npar, ppar, geom) in cfgs:
         J.append(Job(f'MAP:closed_form:m={m}:n={n}:noise={npar}/{nf}:prior={ppar}/{pf}:geometry={geom}',
                      lambda c, a=(m, n, nf, pf, npar, ppar, geom): map_closed_form(c, *a),
                      # both covariances dense: the stationarity identity (14 symbols, three nested square roots) exceeds the normaliser's
                      # monomial budget and the SMT solvers' time: bounded stand-in, not counted as proved
                      'B' if (nf, pf) == ('dense', 'dense') else 'Pbox', FL, allow_exc=True, rtol=1e-4, timeout=600))
-    for (m, n, nf, pf) in [(2, 2, 'scalar', 'scalar'), (2, 2, 'vector', 'vector'), (1, 2, 'scalar', 'vector')] + ([] if q else [(2, 2, 'dense', 'vector'), (2, 2, 'dense', 'dense')]):
+    for (m, n, nf, pf) in [(2, 2, 'scalar', 'scalar'), (2, 2, 'vector', 'vector'), (1, 2, 'scalar', 'vector')] + [(2, 2, 'dense', 'vector')] + ([] if q else [(2, 2, 'dense', 'dense')]):
         J.append(Job(f'sample_posterior:direct:m={m}:n={n}:noise={nf}:prior={pf}', lambda c, a=(m, n, nf, pf): direct_sampling(c, *a), 'B' if 'dense' in (nf, pf) else 'Pbox',   # B B^T H = I with a dense covariance exceeds the provers' budget: bounded stand-in
                      [f'{PR}:BayesianProblem._sampleMapCholesky'] + FL, rtol=1e-4, timeout=600, allow_exc=True))
     J.append(Job('MAP:closed_form:after_compute_cov:sqrtprec_triangular_and_vector_prec', map_after_compute_cov, 'Pbox', FL + ['cuqi.distribution._gaussian:Gaussian.compute_cov'], allow_exc=True, rtol=1e-4, timeout=600))
